@@ -58,6 +58,9 @@ func VerifC08Reopen() {
 	if verifrt.Param("prepush", 0) != 0 {
 		// start from a populated layout so that short histories reach multi-tag states
 		for i := range nodes {
+			if verifrt.Param("prepush", 0) == 2 && nodes[i].kind == kindBlob {
+				continue // parents are stored while their blob children are absent
+			}
 			if !storedIdx(nodes, m, i) {
 				must(s.Push(ctx, nodes[i].desc, newBytesReader(nodes[i].bytes)))
 			}
